@@ -180,7 +180,14 @@ def run(tier, seed):
                    "per-file serialized text included)" % (nscr, nlines), not errs and not mism and nscr > 0, ("; ".join(errs))[:600] + detail)
         # ------------------------------------------------------------ oracle-only stream with loaded documents (nameless SHORT-NAME)
         n2 = 1600 if tier == "thorough" else 240
-        res2 = batch(avh, avm, seed + 17, tier, "dup,serialize,load", n2, "oracle", False)
+        # when the first stream already shows an unexplained failure (or blocks), go straight to the report
+        early = [f for s in shards for f in map(parse_fail, s.get("fails", [])) if classify(f) is None]
+        blocked = any(re.match(r"STAT hung_(generations|scripts)=[1-9]", l) for s in shards for l in s.get("gen_stats", []) + s.get("oracle_stat", []))
+        if early or mism or blocked:
+            res2 = {"shards": []}
+            ctx.notes.append("second (load) stream skipped: the first stream already fails")
+        else:
+            res2 = batch(avh, avm, seed + 17, tier, "dup,serialize,load", n2, "oracle", False)
         ctx.log("oracle batch done")
         errs2 = [s["error"] for s in res2["shards"] if s.get("error")]
         all_shards = [(s, "corr") for s in shards] + [(s, "oracle") for s in res2["shards"]]
@@ -266,7 +273,8 @@ def run(tier, seed):
             again, _ = oracle_on(avh, txt, "confirm.txt")
             again = [g for g in again if g.get("kind") == f.get("kind") and classify(g) is None]
             if again:
-                small = minimise(avh, f["kind"], txt) or txt
+                # no minimisation when histories block: every probe would cost a timeout
+                small = txt if blocked else (minimise(avh, f["kind"], txt) or txt)
                 confirmed.append((f, small, again[0]["raw"]))
         # a broken correspondence: look for a property failure on the disagreeing scripts first
         for why, txt in candidates:
@@ -276,7 +284,7 @@ def run(tier, seed):
             bad = [g for g in fl if classify(g) is None]
             if bad and (bad[0].get("kind"), bad[0].get("classes")) not in seen:
                 seen.add((bad[0].get("kind"), bad[0].get("classes")))
-                confirmed.append((bad[0], minimise(avh, bad[0]["kind"], txt) or txt, bad[0]["raw"]))
+                confirmed.append((bad[0], txt if blocked else (minimise(avh, bad[0]["kind"], txt) or txt), bad[0]["raw"]))
         ctx.oblige("oracle:C13 holds on the implementation for every generated history (modulo known findings)", not confirmed,
                    "; ".join(c[2] for c in confirmed)[:900])
         ctx.coverage["oracle_failures_unknown"] = len(unknown)
